@@ -21,6 +21,15 @@ use std::{cell::RefMut, fmt, io::Write, ptr};
 
 const INITIAL_FRAME_SIZE: usize = 4;
 
+/// The initial contents of a stack with the provided number of slots. The
+/// shared array covers the common case, larger stacks get their own
+fn undefined_slots(count: usize) -> std::borrow::Cow<'static, [Value]> {
+  match UNDEFINED_ARRAY.get(0..count) {
+    Some(slots) => std::borrow::Cow::Borrowed(slots),
+    None => std::borrow::Cow::Owned(vec![VALUE_UNDEFINED; count]),
+  }
+}
+
 #[derive(Debug, PartialEq, Eq, Clone, Copy)]
 enum FiberState {
   Running,
@@ -114,10 +123,10 @@ impl Fiber {
     let mut allocator = context.gc();
 
     // Create stack and assign fun to first slot
-    let mut stack = UniqueVector::new(allocator.manage(
-      VecBuilder::new(&UNDEFINED_ARRAY[0..stack_count], stack_count),
-      context,
-    ));
+    let undefined = undefined_slots(stack_count);
+    let mut stack = UniqueVector::new(
+      allocator.manage(VecBuilder::new(&undefined, stack_count), context),
+    );
 
     stack[0] = val!(fun);
     allocator.push_root(stack);
@@ -590,10 +599,10 @@ impl Fiber {
     let mut allocator = context.gc();
 
     // Create the stack
-    let mut stack = UniqueVector::new(allocator.manage(
-      VecBuilder::new(&UNDEFINED_ARRAY[0..stack_count], stack_count),
-      context,
-    ));
+    let undefined = undefined_slots(stack_count);
+    let mut stack = UniqueVector::new(
+      allocator.manage(VecBuilder::new(&undefined, stack_count), context),
+    );
     allocator.push_root(stack);
 
     // Assign the frame to the start of the stack and move over the callee
